@@ -711,7 +711,7 @@ pub fn run_type<T: Reg>(e: &Entry, s: &mut Src, ctx: &mut Ctx) -> CaseResult {
                     }
                 },
                 Expect::RejectOrSame => match r {
-                    Err(_) => ctx.label(format!("unlisted:{}:rejected", ed.name)),
+                    Err(_) => ctx.label(format!("unlisted:{}:rejected:{kind}", ed.name)),
                     Ok(v2) => {
                         vensure!(
                             v2 == v,
@@ -720,7 +720,7 @@ pub fn run_type<T: Reg>(e: &Entry, s: &mut Src, ctx: &mut Ctx) -> CaseResult {
                             what(),
                             clip(format!("{v2:?}"), 600)
                         );
-                        ctx.label(format!("unlisted:{}:accepted-same-value", ed.name));
+                        ctx.label(format!("unlisted:{}:accepted-same-value:{kind}", ed.name));
                     }
                 },
                 Expect::Unasserted => {
